@@ -7,10 +7,14 @@ from vlib import gen
 ID = "C01"
 RULE = ("structured random (dtype x ndim 1-3 x shape x boundary-dense values x SE class x 7 layouts of the image x "
         "3 layouts of the element); thorough adds all boolean images <=3x4 x all 512 3x3 elements x {erode,dilate} x {C,F}. "
-        "A case is non-trivial when the result is not constant or the element has >=2 members; distinct = distinct case dicts Added families: sparse elements up to 9x11 on images of 1-4 pixels per side; the default element (Bc=None) and the integer codes after another public call (extrema, label, open, cwatershed) in the same process; boolean 2-D views with contiguous rows (colcrop / rowskip / offset layouts).")
+        "A case is non-trivial when the result is not constant or the element has >=2 members; distinct = distinct case dicts Added families: sparse elements up to 9x11 on images of 1-4 pixels per side; the default element (Bc=None) and the integer codes after another public call (extrema, label, open, cwatershed) in the same process; boolean 2-D views with contiguous rows (colcrop / rowskip / offset layouts); elements with a zero-length axis (views into non-zero memory).")
 NOT_PROVED = ["the 2-D boolean fast path is a second executable model (Model/MorphFast.v) PROVED equal to the generic path "
               "(fast_path_is_generic); both models are hand-written from _morph.cpp and tied to the compiled code by the "
-              "correspondence check (all layouts, row views); the offsets-table iterator is modelled by its logical positions"]
+              "correspondence check (all layouts, row views)",
+              "the offsets table of _filters.cpp is a third model (Model/OffsetsTable.v, per-axis arithmetic re-translated on every "
+              "run) PROVED to present at every pixel the row of border-mapped window positions, and the logical retrieve of the kernel "
+              "models is proved equal to that table access for C-ordered arrays (retrieve_is_table_access); that the compiled loops "
+              "around the re-translated expressions are the recognised skeletons is the translator's verbatim match, not a theorem"]
 BUDGET_S = {"quick": 100, "thorough": 1500}
 
 
